@@ -13,6 +13,7 @@ Observations are digests of values only (no addresses), so processes agree on th
 """
 import hashlib
 import io
+import itertools
 import json
 import os
 import sys
@@ -154,9 +155,10 @@ class Gate(object):
         self.release = threading.Event()
         self.armed = False
         self.where = None
+        self.only = None      # park only at this kind of point (None: the first one reached)
 
     def hit(self, where):
-        if self.armed and not self.entered.is_set():
+        if self.armed and not self.entered.is_set() and self.only in (None, where):
             self.where = where
             self.entered.set()
             self.release.wait(120)
@@ -200,6 +202,30 @@ def aux_loader_for(name, st=None):
     return aux_loader
 
 
+TEMP_DIRS = []
+
+
+def _cleanup():
+    import shutil
+    for d in TEMP_DIRS:
+        shutil.rmtree(d, ignore_errors=True)
+
+
+def gated_error_class(st, basename):
+    """an entry for the ignore list that behaves as collada.common.<basename> but whose isinstance
+    check is an I/O-like point: Collada.handleError consults it wherever an error is handled, i.e.
+    deep inside the loaders (inside the recursion over nested nodes)"""
+    import collada
+    base = getattr(collada.common, basename)
+
+    class Meta(type):
+        def __instancecheck__(cls, obj):
+            if st.gate is not None:
+                st.gate.hit('ignore.isinstance')
+            return isinstance(obj, base)
+    return Meta('Gated' + basename, (), {})
+
+
 # the caller's ignore lists: one list object per mask, handed to every document of the process
 # that is loaded with that mask (a user's IGNORE constant); it must come back unchanged
 CALLER_MASKS = {}
@@ -224,7 +250,10 @@ class DocState(object):
 
 
 def exc_obs(e):
-    return ['raised', type(e).__name__, W.scrub(str(e))[:300]]
+    msg = W.scrub(str(e))
+    for d in TEMP_DIRS:
+        msg = msg.replace(d, '<dir>')
+    return ['raised', type(e).__name__, msg[:300]]
 
 
 def doc_obs(doc):
@@ -235,7 +264,15 @@ def doc_obs(doc):
                                             for k, v in sorted(CALLER_MASKS.items()) if list(k) != [c.__name__ for c in v]))
     ids = [[o.id for o in lib] for lib in (doc.geometries, doc.effects, doc.materials, doc.nodes, doc.scenes,
                                            doc.cameras, doc.lights, doc.images, doc.controllers)]
-    return [W.value_hash(doc), errs, mask, doc.tag('probe'), ids]
+    fn = doc.filename
+    try:
+        # the scratch directory a document was loaded from is not part of the observation
+        if isinstance(fn, str) and os.path.dirname(fn) in TEMP_DIRS:
+            doc.filename = os.path.basename(fn)
+        vh = W.value_hash(doc)
+    finally:
+        doc.filename = fn
+    return [vh, errs, mask, doc.tag('probe'), ids]
 
 
 def do_load(st):
@@ -243,11 +280,37 @@ def do_load(st):
     from harness.impl import c17
     prog = st.prog
     src = prog['source']
-    mask = caller_mask(prog.get('ignore'))
+    names = prog.get('ignore') or []
+    if any(n.startswith('Gated') for n in names):
+        mask = [gated_error_class(st, n[5:]) if n.startswith('Gated') else getattr(collada.common, n) for n in names]
+    else:
+        mask = caller_mask(names)
     aux_loader = aux_loader_for(prog['name'], st)
     try:
         if src['kind'] == 'xml':
             st.doc = collada.Collada(Reader(src['xml'].encode('utf-8'), st.gate), ignore=mask, aux_file_loader=aux_loader)
+        elif src['kind'] == 'zip':
+            # an archive with the document and its auxiliary files; member names are the same in
+            # every archive, the bytes are not
+            import zipfile
+            zb = io.BytesIO()
+            with zipfile.ZipFile(zb, 'w') as z:
+                z.writestr(src['member'], src['xml'])
+                for n, d in sorted(src['aux'].items()):
+                    z.writestr(n, d)
+            st.doc = collada.Collada(Reader(zb.getvalue(), st.gate), ignore=mask)
+        elif src['kind'] == 'dir':
+            # a document on disk next to its auxiliary files (same file names in every directory)
+            import tempfile
+            st.tmp = tempfile.mkdtemp(prefix='verif-c20-')
+            with open(os.path.join(st.tmp, src['member']), 'w') as f:
+                f.write(src['xml'])
+            for n, d in sorted(src['aux'].items()):
+                os.makedirs(os.path.dirname(os.path.join(st.tmp, n)) or st.tmp, exist_ok=True)
+                with open(os.path.join(st.tmp, n), 'w') as f:
+                    f.write(d)
+            TEMP_DIRS.append(st.tmp)
+            st.doc = collada.Collada(os.path.join(st.tmp, src['member']), ignore=mask)
         elif src['kind'] == 'file':
             st.doc = collada.Collada(os.path.join(c17.data_dir(), src['file']), ignore=mask)
         else:
@@ -329,7 +392,7 @@ def do_edit(doc, k, a):
         if doc.scene is not None:
             for bg in doc.scene.objects('geometry'):
                 for bp in bg.primitives():
-                    res.append([canon(bp.vertex), [canon(x) for x in list(bp.shapes())[:4]]])
+                    res.append([canon(bp.vertex), [canon(x) for x in itertools.islice(bp.shapes(), 4)]])
                     if hasattr(bp, 'triangleset'):
                         res.append(canon(bp.triangleset().vertex))
         for im in doc.images:
@@ -468,6 +531,7 @@ def mode_gated(payload):
     A = states[0]
     gate = Gate()
     A.gate = gate
+    gate.only = payload.get('gate_where')
     kA = payload['gate_step']
     g0 = global_state()
     digest = lambda g: W._h(*['%s=%s' % (k, g[k]) for k in sorted(g)])
@@ -514,8 +578,18 @@ def mode_gated(payload):
 def main():
     payload = json.load(sys.stdin)
     W.freeze_clock()
+    sys.setrecursionlimit(12000)     # deeply nested documents; the same in every mode
+    threading.stack_size(64 * 1024 * 1024)
     preload()
     mode = payload['mode']
+    try:
+        res = _dispatch(mode, payload)
+    finally:
+        _cleanup()
+    json.dump(res, sys.stdout)
+
+
+def _dispatch(mode, payload):
     if mode == 'solo':
         res = mode_solo(payload)
     elif mode == 'sched':
@@ -526,7 +600,7 @@ def main():
         res = mode_gated(payload)
     else:
         raise ValueError(mode)
-    json.dump(res, sys.stdout)
+    return res
 
 
 if __name__ == '__main__':
